@@ -37,6 +37,9 @@ type syncScn struct {
 	Flags    []string      `json:"flags"` // client options, e.g. ["-rt", "--delete", "--exclude=a"]
 	Arr      string        `json:"arr"`   // pull | push | local | lib | libpush
 	Form     string        `json:"form"`  // slash (contents of the tree) | noslash (the tree itself) | sub (pull of module/sub/)
+	// Missing: one more source argument, naming a directory that does not exist (a source the sender cannot read), given
+	// "first" or "last" on the command line (arrangements local and push)
+	Missing string `json:"missing"`
 	Judge    []string      `json:"judge"`
 	Repeat   bool          `json:"repeat"` // run the same transfer a second time (idempotence)
 	CapUp    int           `json:"capup"`  // lib arrangement: transport capacities (0 = unbounded default)
@@ -348,13 +351,19 @@ func syncHandler(w *workerCtx, line []byte) (any, error) {
 			srcArg = tree
 		}
 		var rerr error
+		srcs := []string{srcArg}
+		if s.Form == "multi" {
+			srcs = append(srcs, tree2+"/")
+		}
+		switch s.Missing {
+		case "first":
+			srcs = append([]string{filepath.Join(sdir, "gone") + "/"}, srcs...)
+		case "last":
+			srcs = append(srcs, filepath.Join(sdir, "gone")+"/")
+		}
 		switch s.Arr {
 		case "local":
-			if s.Form == "multi" {
-				rerr = runCmd(logb, append(append([]string{}, s.Flags...), srcArg, tree2+"/", ddir+"/"))
-			} else {
-				rerr = runCmd(logb, append(append([]string{}, s.Flags...), srcArg, ddir+"/"))
-			}
+			rerr = runCmd(logb, append(append(append([]string{}, s.Flags...), srcs...), ddir+"/"))
 		case "pull":
 			url := "rsync://127.0.0.1:" + port + "/src/"
 			if s.Form == "noslash" {
@@ -364,11 +373,7 @@ func syncHandler(w *workerCtx, line []byte) (any, error) {
 			}
 			rerr = runCmd(logb, append(append([]string{}, s.Flags...), url, ddir+"/"))
 		case "push":
-			if s.Form == "multi" {
-				rerr = runCmd(logb, append(append([]string{}, s.Flags...), srcArg, tree2+"/", "rsync://127.0.0.1:"+port+"/dst/"))
-			} else {
-				rerr = runCmd(logb, append(append([]string{}, s.Flags...), srcArg, "rsync://127.0.0.1:"+port+"/dst/"))
-			}
+			rerr = runCmd(logb, append(append(append([]string{}, s.Flags...), srcs...), "rsync://127.0.0.1:"+port+"/dst/"))
 		case "lib", "libpush":
 			var rec *wireRec
 			if (s.Wire && s.Arr == "lib") || s.Full {
